@@ -66,8 +66,10 @@ pub mod zvt_builder {
                 r matches Ok(v) ==> Self::parse_ok(bytes@, v),
         //@ tag parse.foreign_ctrl_is_error C15 C06
                 (bytes@.len() < 2 || !Self::ctrl_known(bytes@[0], bytes@[1])) ==> r is Err,
-        //@ tag parse.own_ctrl_is_dispatched C15 C05
-                // ... and a packet of the reply set is handed to its own packet type (the sequences rely on it: C05)
+        //@ tag parse.own_ctrl_is_dispatched C15 C05 C04
+                // ... and a packet of the reply set is handed to its own packet type (the sequences rely on it: C05; and the
+                // transport returns the k packets of a stream only if the parser accepts each complete one, whatever its
+                // body length: C04)
                 Self::parse_defined(bytes@) ==> r is Ok,
         //@ end
     }
